@@ -15,5 +15,12 @@ func evalIdent(ident *ast.Ident, env *object.Env) object.PanObject {
 		return appendStackTrace(err, ident.Source())
 	}
 
+	// NOTE: err variable (`_`) is shared by all programs.
+	// Copy it not to leave stacktrace of this evaluation in the shared object
+	if err, ok := val.(*object.PanErr); ok {
+		copied := *err
+		return &copied
+	}
+
 	return val
 }
